@@ -15,7 +15,17 @@ pub struct C17;
 
 fn load(text: &str, l: &Layout, case_tag: u64) -> Result<v1::Instance, String> {
     if l.gzip {
-        let mut enc = flate2::write::GzEncoder::new(Vec::new(), flate2::Compression::new(3));
+        // the gzip member header may carry optional fields (the gzip tool stores the file name and time, others a
+        // comment or an extra field)
+        let mut b = flate2::GzBuilder::new();
+        let opt = (case_tag / 5) % 4;
+        if opt & 1 != 0 {
+            b = b.filename("model.mps").mtime(1_700_000_000);
+        }
+        if opt & 2 != 0 {
+            b = b.comment("written by a test").extra(vec![1u8, 2, 3, 4]);
+        }
+        let mut enc = b.write(Vec::new(), flate2::Compression::new(3));
         enc.write_all(text.as_bytes()).unwrap();
         let bytes = enc.finish().unwrap();
         if case_tag % 5 == 0 {
@@ -232,7 +242,7 @@ impl Property for C17 {
          oracle = the abstract model: matching by name, exact polynomials, value domains; non-trivial = >=2 row types and >=2 distinct bound specs, or an error case; distinct = sha256(file text)"
     }
     fn required_labels(&self) -> Vec<String> {
-        let mut v: Vec<String> = ["row=E", "row=L", "row=G", "range+@E", "range-@E", "range+@L", "range-@L", "range+@G", "range-@G", "5-field", "objsense-own-line", "objsense-absent", "foreign-objective-name", "obj-constant", "gzip", "tabs", "comments", "integer-marker", "objsense-gap", "row-named-like-range-twin", "numeric-looking-column-name", "numeric-looking-row-name", "explicit-zero-entry", "column-with-only-zero-entries"].iter().map(|s| s.to_string()).collect();
+        let mut v: Vec<String> = ["row=E", "row=L", "row=G", "range+@E", "range-@E", "range+@L", "range-@L", "range+@G", "range-@G", "5-field", "objsense-own-line", "objsense-absent", "foreign-objective-name", "obj-constant", "gzip", "tabs", "comments", "integer-marker", "objsense-gap", "row-named-like-range-twin", "numeric-looking-column-name", "numeric-looking-row-name", "explicit-zero-entry", "column-with-only-zero-entries", "comments-that-look-like-content", "gzip-header-with-optional-fields"].iter().map(|s| s.to_string()).collect();
         for b in ["none", "UP", "UP-negative", "LO", "LO+UP", "FX", "MI", "PL", "FR", "BV", "LI", "UI", "MI+UP"] {
             v.push(format!("bound={b}"));
         }
@@ -269,6 +279,9 @@ impl Property for C17 {
         let text = write_mps(&lp, &layout, &inject);
         ctx.fp_str(&text);
         ctx.fp(&[layout.gzip as u8]);
+        if layout.gzip && (tag / 5) % 4 != 0 {
+            ctx.label("gzip-header-with-optional-fields");
+        }
         let kinds: std::collections::BTreeSet<char> = lp.rows.iter().map(|r| r.kind).collect();
         let specs: std::collections::BTreeSet<&str> = lp.cols.iter().map(|c| bound_keyword(&c.bound)).collect();
         if (kinds.len() >= 2 && specs.len() >= 2) || inj.is_some() {
